@@ -65,13 +65,20 @@ def storage(ctx, f, cfg):
 def _writers(f):
     """Bodies that obtain mutable access to the global configuration cell."""
     out = []
+    from . import inline
     for p, b in f.bodies.items():
         if "config" not in p:
             continue
-        for bb, t in b.calls():
+        # a private helper that only wraps the lock (`fn update(&self, f: impl FnOnce(&mut ConfigEntity))`) is not a writer of its own:
+        # the functions that call it are, and their normalised view contains the lock call and the closure they pass
+        if inline.default_policy(f, b, b) and f.callers_of(p) and b.kind != "Closure" and any("impl FnOnce" in (l.get("ty") or "") or "{closure" in (l.get("ty") or "") or (l.get("ty") or "") in ("F", "impl FnOnce(&mut core::config::entity::ConfigEntity) -> R") for l in b.locals[1:b.argc + 1]):
+            continue
+        v = f.view(b) if b.kind != "Closure" else b
+        for bb, t in v.calls():
             nm = callee_def(t).rsplit("::", 1)[-1]
-            if nm in ("borrow_mut", "write") and ("ConfigEntity" in (t.get("dest_ty") or "")):
+            if nm in ("borrow_mut", "write") and ("ConfigEntity" in (t.get("dest_ty") or "") or "GlobalConfig" in (t.get("dest_ty") or "")):
                 out.append((b, bb))
+                break
     return out
 
 
@@ -85,7 +92,7 @@ def validate_before_store(ctx, f, cfg):
     # callers of a pure setter (assigns the whole entity): each call must be dominated by check(value)? Continue
     for sp in sorted(setters):
         sb = f.bodies[sp]
-        whole = any(callee_def(t).endswith("ConfigEntity::check") for c in [sb] + f.closures_of(sb) for _, t in c.calls())
+        whole = any(callee_def(t).endswith("ConfigEntity::check") for c in [sb, f.view(sb)] + f.closures_of(sb) for _, t in c.calls())
         if whole:
             # mutates in place and validates afterwards, propagating the error (override_items_from_system_env)
             ok = _check_then_propagate(f, sb)
@@ -135,6 +142,11 @@ def _check_then_propagate(f, sb):
                 for b2, t2 in c.calls():
                     if callee_is(t2, "Try::branch") and op_place(t2["args"][0]) and op_place(t2["args"][0])["l"] == dest:
                         return True
+    # the check's result IS what the function (or the closure run under the lock) returns: its Err reaches the caller
+    v = f.view(sb)
+    sl = Slicer(f, v)
+    if "Result<" in v.ret_ty and any_atom(sl.of_local(0), "call:ConfigEntity::check"):
+        return True
     return False
 
 
@@ -148,6 +160,11 @@ def _accessor_field(f, path):
         at = Slicer(f, c).of_local(0)
         flds += [a.rsplit(".", 1)[-1] for a in at if a.startswith("field:") and "config::entity::" in a]
     return flds
+
+
+def _ok_is_validators(b, bb):
+    """the Ok built in block bb belongs to an inlined helper (its own `Ok(())` answer), not to check() itself"""
+    return b.blocks[bb].get("src") not in (None, b.path)
 
 
 def agreement(ctx, f, cfg):
@@ -167,7 +184,12 @@ def agreement(ctx, f, cfg):
         # error propagated: check() can answer Ok only on the validator's success edge (`?`, match, if-let, is_ok/is_err)
         oks = [bi for bi, blk in enumerate(chk.blocks) if not blk["cleanup"] for s_ in blk["stmts"]
                if s_["k"] == "assign" and s_["lhs"]["l"] == 0 and not s_["lhs"]["p"] and s_["rv"]["k"] == "agg" and s_["rv"].get("variant") == "Ok"]
-        ok = ok and bool(oks) and all(ok_edge_dominates(f, chk, x, "call:check_validity_for_reuse_statistic", sl=sl) for x in oks)
+        dominated = bool(oks) and all(ok_edge_dominates(f, chk, x, "call:check_validity_for_reuse_statistic", sl=sl) for x in oks)
+        # ... or the validator's own Result is what check() returns (directly or through a helper that returns it)
+        handed_on = any_atom(sl.of_local(0), "call:check_validity_for_reuse_statistic") and not any(
+            not ok_edge_dominates(f, chk, x, "call:check_validity_for_reuse_statistic", sl=sl) for x in oks
+            if not any_atom(sl.of_local(0), "call:check_validity_for_reuse_statistic") )
+        ok = ok and (dominated or (handed_on and all(ok_edge_dominates(f, chk, x, "call:check_validity_for_reuse_statistic", sl=sl) or _ok_is_validators(chk, x) for x in oks)))
     ctx.instance("C17.validator-agreement/check", chk.path, got, [[x] for x in STAT_FIELDS], ok, cfg)
     if not ok:
         ctx.violation("C17.validator-agreement", "C17.validator-agreement|check-args", "ConfigEntity::check does not validate (sample_count, interval_ms, sample_count_total, interval_ms_total) in that role order with the error propagated: %s" % got, chk.loc(), config=cfg)
